@@ -210,7 +210,9 @@ def scriptH : Handler := fun req => do
           | .arr #[v, n, k] =>
             let c := canonString (← toJ v)
             pre := insertA c (← chars n) pre
-            if (lookupA c metas).isNone then metas := metas ++ [(c, ← optStrs k)]
+            -- both tables are BTreeMaps filled row by row: a later row with the same canonical form replaces the
+            -- earlier one, name AND enum key
+            metas := insertA c (← optStrs k) metas
           | _ => throw "pre row"
         let mut epre := []
         for r in (← arr (fieldD s "enums" (Json.arr #[]))) do
@@ -257,7 +259,7 @@ def kindOf (s : Json) : Kind :=
   else if hasKey s "properties" then .object
   else .other
 
-def unionOf (s : Json) : UnionS :=
+def unionOf (s : Json) (tagged : List (List Char) := []) : UnionS :=
   let vs := if (arrD s "oneOf").isEmpty then arrD s "anyOf" else arrD s "oneOf"
   let vars := vs.map fun v =>
     match refNameOf v with
@@ -269,7 +271,9 @@ def unionOf (s : Json) : UnionS :=
   let d := fieldD s "discriminator" Json.null
   let disc := match d.getObjVal? "propertyName" with | .ok (.str p) => some p.toList | _ => none
   let mapped := match d.getObjVal? "mapping" with | .ok (.obj m) => !m.toList.isEmpty | _ => false
-  { vars, disc, mapped }
+  -- `tagged`: the pool's components that carry a `const` tag and are registered in the discriminator cache
+  let implicit := disc.isSome && !mapped && !vars.isEmpty && vars.all fun v => match v with | Var.ref n => tagged.contains n | _ => false
+  { vars, disc, mapped, implicit }
 
 structure OccIn where
   occ : Occ
@@ -332,14 +336,14 @@ def namedSorted (os : List OccIn) : List Occ :=
   let ns := os.filterMap fun o => o.occ.named.map fun n => (n, o.occ)
   (sortKV (ns.map fun (n, _) => (n, J.null))).filterMap fun (n, _) => ns.lookup n
 
-def classesFor (a b : Json) : List String :=
+def classesFor (a b : Json) (tagged : List (List Char) := []) : List String :=
   match kindOf a, kindOf b with
   | .enum, .enum =>
     match (arrD a "enum").mapM jvOf, (arrD b "enum").mapM jvOf with
     | .ok va, .ok vb => if enumKey va == enumKey vb && KnownNonStringEnum va vb && !sameMembers (wireVals va) (wireVals vb) then ["KnownNonStringEnum"] else []
     | _, _ => []
   | .union, .union =>
-    let ua := unionOf a; let ub := unionOf b
+    let ua := unionOf a tagged; let ub := unionOf b tagged
     if !shareNamedU ua ub then [] else
     (if KnownUnionVariantOrder ua ub then ["KnownUnionVariantOrder"] else []) ++
     (if KnownUnionExtraInline ua ub then ["KnownUnionExtraInline"] else []) ++
@@ -361,6 +365,7 @@ def shareSitesH : Handler := fun req => do
   let impl ← field req "impl"
   let occsJ ← arr (← field inp "occs")
   let occs ← occsJ.mapM occOf
+  let taggedRefs : List (List Char) := ((arr (fieldD inp "tagged_refs" (Json.arr #[]))).toOption.getD []).filterMap fun x => x.getStr?.toOption.map String.toList
   let n := occs.length
   let extra ← match fieldD inp "extra" Json.null with
     | .null => pure none
@@ -429,7 +434,7 @@ def shareSitesH : Handler := fun req => do
         | some r, some oi =>
           match occsR[r]? with
           | some orp =>
-            let cs := if r != i then classesFor oi.schema orp.schema else []
+            let cs := if r != i then classesFor oi.schema orp.schema taggedRefs else []
             let cs := if cs.isEmpty && touched toksR i then ["KnownInlineEnumNameClash"] else cs
             if !cs.isEmpty then attributed := attributed + 1; known := cs ++ known
           | none => if touched toksR i then attributed := attributed + 1; known := "KnownInlineEnumNameClash" :: known
